@@ -78,6 +78,8 @@ type c13Case struct {
 	NLines   int          `json:"nlines,omitempty"`
 	Seed     uint64       `json:"seed,omitempty"` // stress / twoslot / pmatch
 	Iters    int          `json:"iters,omitempty"`
+	TextMem  *c13TextCase `json:"textmem,omitempty"` // kind textmem (c13display.go)
+	Disp     *c13DispCase `json:"disp,omitempty"`    // kind display (c13display.go)
 }
 
 var c13Once sync.Once
@@ -1407,6 +1409,10 @@ func c13Run(c *Ctx, cs c13Case) {
 		c13PMatch(c, cs)
 	case "stress":
 		c13Stress(c, cs)
+	case "textmem":
+		c13TextMem(c, cs)
+	case "display":
+		c13Display(c, cs)
 	}
 }
 
@@ -1414,6 +1420,10 @@ func runC13(c *Ctx) {
 	c.Rep.Rule = "chunk-list op sequences (burst sizes and --tail values around multiples of 100; old snapshots re-read after later pushes), chunk-cache op sequences, " +
 		"matcher request sequences through Loop and through scan (query edits at both ends, sort toggles, reloads and tail trims that bump the revision, item counts that come back, " +
 		"full 100-line chunks with terms matching <= 20 lines, partitions 1..32, reset pending), both mailbox slots occupied, concurrent pusher with random Reset timing; " +
+		"item text memory (Chars.Lines / Terminal.itemLines on byte- and rune-backed items, the holder of the lines re-slices, appends and assigns), " +
+		"display sessions of the real fzf in a pty (records narrower and wider than the window, non-ASCII, multi-line, tabs, ANSI; wrap/hscroll/ellipsis/tabstop/gap/layout/" +
+		"pointer/marker/preview/header-lines/tail options; slow and fast input; UI actions, resizes, typed and changed queries; every reported item, every listed match " +
+		"and the accepted output compared with the records as they were read); " +
 		"non-trivial = a published merger that is a proper non-empty subset of its snapshot (sequences) / more than one snapshot (chunk list) / a cache hit (cache); distinct by JSON of the case"
 	if os.Getenv("VERIF_C13_CHILD") != "" {
 		n := c.N(40, 400)
@@ -1445,6 +1455,26 @@ func runC13(c *Ctx) {
 			}
 		}
 		c13Run(c, cs)
+		return
+	}
+	if only := os.Getenv("VERIF_C13_ONLY"); only != "" { // development aid: one of the display-side streams alone
+		n := c.N(64, 1200)
+		if only == "textmem" {
+			n = c.N(600, 10000)
+		}
+		cases := make([]c13Case, n)
+		for i := range cases {
+			if only == "textmem" {
+				cases[i] = c13GenTextMem(c.Rng)
+			} else {
+				cases[i] = c13GenDisplay(c.Rng)
+			}
+		}
+		if only == "race" {
+			c13DisplayRace(c, cases)
+		} else {
+			parallel(c, n, func(i int, _ *RNG) { c13Run(c, cases[i]) })
+		}
 		return
 	}
 	for _, f := range corpusFiles(c) {
@@ -1487,12 +1517,26 @@ func runC13(c *Ctx) {
 	gen(c.N(100, 1500), func(r *RNG) c13Case { return c13GenMatcher(r, "scans") })
 	gen(c.N(200, 2000), c13GenPMatch)
 	gen(c.N(200, 2000), c13GenTwoSlot)
+	gen(c.N(600, 10000), c13GenTextMem)
+	var dispCases []c13Case
+	{
+		n := c.N(120, 1200)
+		dispCases = make([]c13Case, n)
+		for i := range dispCases {
+			dispCases[i] = c13GenDisplay(c.Rng)
+		}
+		parallel(c, n, func(i int, _ *RNG) { c13Run(c, dispCases[i]) })
+	}
 	ns := c.N(6, 60)
 	for i := 0; i < ns; i++ {
 		c13Stress(c, c13GenStress(c.Rng, 40))
 	}
 	if c.Thorough() {
 		c13RaceChild(c)
+		if n := 200 * c.Scale; len(dispCases) > n {
+			dispCases = dispCases[:n]
+		}
+		c13DisplayRace(c, dispCases)
 	}
 }
 
